@@ -34,6 +34,11 @@ type Hostile struct {
 	// (33, 64, 100 ...), the marker bit 1, and then as many suffix bits taken from the low bits of UEValue
 	// (zero bits beyond 64).
 	UEPrefixZeros int `json:"ue_prefix_zeros,omitempty"`
+	// ReplaceUE2: a second codeword (index UEIndex2, any position) replaced by UEValue2, for faults that need two
+	// cooperating values (a width that wraps to 0 and the count of elements read with it)
+	ReplaceUE2 bool   `json:"replace_ue2,omitempty"`
+	UEIndex2   int    `json:"ue_index2,omitempty"`
+	UEValue2   uint64 `json:"ue_value2,omitempty"`
 	// TruncateBits > 0: only the first TruncateBits bits are kept (the last byte is padded with zeros).
 	TruncateBits int `json:"truncate_bits,omitempty"`
 	// Flip: bit number FlipBit (0 = first bit written) is inverted, if it exists after truncation.
@@ -77,6 +82,9 @@ func (w *BitWriter) Flag(b bool) {
 func (w *BitWriter) UE(v uint64) {
 	k := w.nue
 	w.nue++
+	if h := w.h; h != nil && h.ReplaceUE2 && h.UEIndex2 == k && !(h.ReplaceUE && h.UEIndex == k) {
+		v = h.UEValue2
+	}
 	if h := w.h; h != nil && h.ReplaceUE && h.UEIndex == k {
 		if h.UEPrefixZeros > 0 {
 			for i := 0; i < h.UEPrefixZeros; i++ {
